@@ -335,6 +335,10 @@ def _c12_sweeps():
         sw = [{"prog": pr, "kind": kind, "prekeys": pk, "lv": lv} for lv in lvs for pk in ("", "7", "3,9") for pr in ("H7|C7|T", "H7|I7|C7", "H7|F7,C7|I8", "H7|H8|T", "H7|C7,C7|N7")]
         L.append(sweep("sweep-%s-nodehandle" % kind, "c12_assoc", (1, 2), sw, what="%s: insert(node_type&&) of a node extracted from another container (where further nodes followed it) racing count / find / traversal / inserts" % kind,
                        tiers=("quick", "thorough") if kind in ("ommap",) else ("thorough",)))
+    for kind in ("uset", "umap", "ummap"):
+        sw = [{"prog": pr, "kind": kind, "buckets": b, "keysfirst": 1, "prekeys": "7,9", "pre": pre, "prebase": pb, "prestride": ps} for b in (1, 2, 4) for pre in (0, 9, 40) for (pb, ps) in ((100, 1), (1024, 64)) for pr in ("F7|N9|I64,I128", "I64|I128,F7|C9,T")]
+        L.append(sweep("sweep-%s-small-table" % kind, "c12_assoc", (1, 2), sw, what="%s constructed with 1, 2 or 4 buckets: keys inserted while the table is small, growth by 0 / 9 / 40 further keys, then lookups racing inserts (elements stay reachable through bucket growth)" % kind,
+                       tiers=("quick", "thorough") if kind == "uset" else ("thorough",)))
     qa = ["I7", "I8", "C7"]
     for kind in ("ummap", "umset"):
         sw = [{"prog": prog_str(t), "kind": kind, "hash": "const", "prekeys": pk} for pk in ("5", "7") for t in thread_programs(qa, 2, 2, keep=useful)]
